@@ -49,14 +49,31 @@ META.update({
          "level_text": "Exploration, exhaustive in the port, width and access-kind dimensions (all 65536 x 3 x 3 with one value each); values are sampled.",
          "level_note": TRAP_NOTE},
 })
+META.update({
+ "C11": {"engine": "vx-trap", "design_ref": "DESIGN.md §6 C11", "technique": "trap-and-emulate monitor of invlpg / mov cr3 / invpcid / invlpgb / tlbsync operands; token monitor on real mapper calls; broadcast builder driven through hook H2 with a coverage/gap checker over the request log",
+         "level_text": "Exploration (PCID x kind exhaustive): operands of every trapped flush instruction are compared with the arguments; for the broadcast builder the whole request sequence of each case is checked for coverage, per-request bounds, option fields and gap crossing.",
+         "level_note": TRAP_NOTE},
+ "C12": {"engine": "vx-trap", "design_ref": "DESIGN.md §6 C12", "technique": "byte-level gate decoder over the raw IDT memory + shadow-state monitor for option setters + trapped lidt operand; vectors and range pairs exhaustive",
+         "level_text": "Exploration with exhaustive vector and (thorough) range-pair dimensions; handler addresses and setter programs are sampled.",
+         "level_note": TRAP_NOTE},
+ "C14": {"engine": "vx-trap", "design_ref": "DESIGN.md §6 C14", "technique": "shadow-vector monitor over random append histories for several const capacities + trapped lgdt operand",
+         "level_text": "Exploration: random append histories driven past capacity for six capacities, every step compared with a shadow vector; descriptors are arbitrary 64-bit patterns.",
+         "level_note": TRAP_NOTE},
+ "C15": {"engine": "vx-pure", "design_ref": "DESIGN.md §6 C15", "technique": "architectural descriptor decoder as oracle over generated pointers; layout measured by pointer arithmetic and raw bytes",
+         "level_text": "Exploration: the TSS descriptor is a pure function of the pointer; walking bits are enumerated for all 64 positions and 10^6-10^8 boundary-biased pointers are sampled; presets and layouts are finite and checked completely.",
+         "level_note": PURE_NOTE},
+ "C16": {"engine": "vx-trap", "design_ref": "DESIGN.md §6 C16 + Appendix B", "technique": "trap-and-emulate monitor with an emulated register file (per-wrapper contracts on event sequence, written value and round trip); real CPU as oracle for instructions that run in ring 3",
+         "level_text": "Exploration: hundreds of thousands (quick) to 10^8 (thorough) wrapper calls with boundary-biased prior register contents and arguments, each judged on the exact trapped instruction sequence and the emulated register afterwards.",
+         "level_note": TRAP_NOTE},
+})
 NOT_APPLICABLE = {}
 ENGINES = [
- {"name": "vx-pure", "path": "harness/src/props/c03.rs..c08.rs, harness/src/gen.rs", "serves_properties": ["C03", "C04", "C05", "C06", "C07", "C08"],
+ {"name": "vx-pure", "path": "harness/src/props/c03.rs..c08.rs, harness/src/gen.rs", "serves_properties": ["C03", "C04", "C05", "C06", "C07", "C08", "C15"],
   "kind_free_text": "boundary-biased generators + independent arithmetic oracles judging every call of the real crate functions, in overflow-checking and non-checking builds"},
 ]
 ENGINES.append({"name": "vx-paging", "path": "harness/src/props/paging.rs, harness/src/{simphys,hwwalk,refmodel}.rs", "serves_properties": ["C01", "C02", "C09", "C10"],
   "kind_free_text": "real mapper code over simulated physical memory; reference model + raw-memory walker + byte diff + allocator log after every call; fault injection by state forking"})
-ENGINES.append({"name": "vx-trap", "path": "harness/src/trapemu.rs, harness/src/props/c17.rs, c18.rs", "serves_properties": ["C17", "C18"],
+ENGINES.append({"name": "vx-trap", "path": "harness/src/trapemu.rs, harness/src/props/c17.rs, c18.rs", "serves_properties": ["C11", "C12", "C14", "C16", "C17", "C18"],
   "kind_free_text": "SIGSEGV/SIGILL trap-and-emulate monitor: decodes the privileged instruction the crate really executed, logs operands, applies it to an emulated register file, resumes"})
 HOOK_COMMITS = ["fa1ff97", "dc6676e", "2bec2c6"]
 NOTES = ("Runtime monitoring and sanitizers. ./check <ID> rebuilds the harness crate (harness/, binary vx) against /repo's working tree in "
